@@ -481,7 +481,12 @@ static void janet_stream_marshal(void *p, JanetMarshalContext *ctx) {
     janet_marshal_int64(ctx, (int64_t)(duph));
 #else
     /* Marshal after dup because it is easier than maintaining our own ref counting. */
-    int duph = dup(s->handle);
+    /* dup() would silently drop close-on-exec: child processes would inherit the copy and
+     * keep the pipe or socket open behind the program's back */
+    int fdflags = fcntl(s->handle, F_GETFD);
+    int duph = (fdflags >= 0 && (fdflags & FD_CLOEXEC))
+               ? fcntl(s->handle, F_DUPFD_CLOEXEC, 0)
+               : dup(s->handle);
     if (duph < 0) janet_panicf("failed to duplicate stream handle: %V", janet_ev_lasterr());
     janet_marshal_int(ctx, (int32_t)(duph));
 #endif
@@ -502,7 +507,10 @@ static void *janet_stream_unmarshal(JanetMarshalContext *ctx) {
 #else
     p->handle = (JanetHandle) janet_unmarshal_int(ctx);
 #endif
-#ifdef JANET_EV_POLL
+    /* The copy lives on this thread's event loop: without a registration here, a wait on it
+     * is never woken (the original was registered with the sending thread's loop only). */
+#ifndef JANET_WINDOWS
+    p->flags &= ~JANET_STREAM_UNREGISTERED;
     janet_register_stream(p);
 #endif
     return p;
@@ -1668,6 +1676,10 @@ static void janet_ev_setup_selfpipe(void) {
     if (janet_make_pipe(janet_vm.selfpipe, 1)) {
         JANET_EXIT("failed to initialize self pipe in event loop");
     }
+#ifndef JANET_WINDOWS
+    /* Mode 1 leaves the write end inheritable (it is meant for a child's stdio): not this one */
+    fcntl(janet_vm.selfpipe[1], F_SETFD, FD_CLOEXEC);
+#endif
 }
 
 /* Handle events from the self pipe inside the event loop */
